@@ -1164,7 +1164,32 @@ class Exec(ExprMixin, CallMixin):
         return l2
 
     def for_hook(self, s, st, src, ordn, lc):
-        return None
+        """`for x in it` over an iterator object whose class has a `__next__` contract (raises StopIteration iff exhausted):
+        desugared to  while True: try: x = next(it) / except StopIteration: break."""
+        if not (isinstance(src.t, T.Ref) and src.t.cls != '$any'):
+            return None
+        nx = self.eng.find_method(src.t.cls, '__next__')
+        if nx is None or 'StopIteration' not in nx.raises or not nx.raises['StopIteration'].startswith('iff:'):
+            return None
+        self.nonnull(src, st, 'iteration')
+        stop = nx.raises['StopIteration'][4:]
+
+        def envf(cur):
+            return {}
+
+        def cond(cur):
+            c_stop = self.spec_eval(stop, cur.copy(), {'self': src}, old=cur.copy())
+
+            def prep(b):
+                n0 = len(self.exits)
+                v = self.call_contract(nx, [src], {}, b, s)
+                # the StopIteration exit is excluded by the loop condition
+                self.exits[n0:] = [e for e in self.exits[n0:] if e[1] != 'StopIteration']
+                self.assign(s.target, v, b)
+            self._body_prep = prep
+            return z3.Not(c_stop)
+
+        return self.run_loop(s, st, lambda st0: envf, cond, lambda cur: None, ordn, lc)
 
     def for_string(self, s, st, src, ordn, lc, idx, iname, enum):
         st.locals[idx] = SV(T.Int, I(0))
